@@ -1191,6 +1191,20 @@ func scannerAdvanceIsAllOrNothing(c *eng.Ctx) {
 			}
 		}
 		c.Check(n >= 4, "position-stores-found", nil, f, "nextContainer assigns the scanner's position", fmt.Sprintf("%d stores", n))
+		// (a') a successful advance (re)assigns EVERY per-container field: what describes the previous container does not survive
+		// into the next one (an "empty bucket" flag that is only ever set makes every later bucket of the block merge as absent)
+		perContainer := []string{"highKey", "container", "seriesEntries", "highContainerIdx"}
+		if len(p.SitesInProgram(eng.StoreField(T+".empty"))) > 0 {
+			perContainer = append(perContainer, "empty")
+		}
+		for _, fld := range perContainer {
+			stores := p.Sites(f, eng.StoreField(T+"."+fld))
+			for i, r := range eng.SuccessReturns(f) {
+				c.Check(len(stores) > 0 && eng.DominatedBy(f, r, stores, nil), fmt.Sprintf("assigned-on-every-successful-advance:%s[%d]", fld, i), r, f,
+					"every field that describes the current container is assigned on every path of a successful advance - a field that is only set on one branch keeps the previous container's value on the other",
+					"a successful return is reachable without a store to "+fld)
+			}
+		}
 		// (b) the writer legitimately produces a bucket of <= 4 bytes (every series of it has an empty entry); the query-side reader
 		// answers "no data" for it - so does the scanner: the short-bucket edge does not lead to an error
 		short := 0
